@@ -44,6 +44,10 @@ THEOREMS = ['PbBss.C06.' + t for t in [
     'broadcastLead_slices', 'singleton_init_weights',
     # counter-witnesses
     'cumprod_axis0_not_slicewise', 'postInit_without_reshape_back_wrong_shape',
+    'em_sliced_fit_noninterference',
+    'em_sliced_fit_eq_single',
+    'em_mstep_local_cacg',
+    'em_mstep_local_gcacgmm',
 ]]
 ASSUMPTIONS = [
     'theorems are about the reversed-index tensor-layer transcriptions in lean/PbBss/Model/Tensor.lean and Model/TensorEm.lean; they '
